@@ -16,10 +16,11 @@ import (
 
 type c01Step struct {
 	Data  gen.Data `json:"data"`
-	Comp  string   `json:"comp"`  // fast-obj | fast-pkg | hc-obj | hc-pkg
-	Depth uint32   `json:"depth"` // HC search depth
-	Extra int      `json:"extra"` // destination = bound + extra
-	Spare int      `json:"spare"` // spare capacity behind the destination
+	Comp  string   `json:"comp"`            // fast-obj | fast-pkg | hc-obj | hc-pkg
+	Depth uint32   `json:"depth"`           // HC search depth
+	Extra int      `json:"extra"`           // destination = bound + extra
+	Spare int      `json:"spare"`           // spare capacity behind the destination
+	Short int      `json:"short,omitempty"` // > 0: history step only - the destination has this many bytes, so the call may fail part-way; nothing is judged
 }
 
 type c01Case struct {
@@ -76,7 +77,13 @@ func drawC01(t *rapid.T) c01Case {
 	n := rapid.IntRange(1, 4).Draw(t, "nsteps")
 	maxLen := pick(256<<10, 4<<20)
 	for i := 0; i < n; i++ {
-		c.Steps = append(c.Steps, drawBlockStep(t, maxLen))
+		st := drawBlockStep(t, maxLen)
+		// history steps into a too-small destination: a compressor that has failed part-way is still a compressor
+		// "that processed other inputs before"; the last step is always a judged one
+		if i < n-1 && rapid.IntRange(0, 3).Draw(t, "short?") == 0 {
+			st.Short = rapid.IntRange(1, maxI(1, lz4.CompressBlockBound(st.Data.Len())-1)).Draw(t, "short")
+		}
+		c.Steps = append(c.Steps, st)
 	}
 	return c
 }
@@ -178,6 +185,11 @@ func runC01(c c01Case, rec *stat.Rec) *stat.Failure {
 	for i, s := range c.Steps {
 		src := s.Data.Build()
 		bound := lz4.CompressBlockBound(len(src))
+		if s.Short > 0 {
+			_, _ = bc.compress(s.Comp, s.Depth, src, make([]byte, s.Short))
+			rec.Class("history/short-destination-call")
+			continue
+		}
 		back := make([]byte, bound+s.Extra+s.Spare)
 		for j := range back {
 			back[j] = 0xCD
@@ -274,6 +286,6 @@ func TestC01Pinned(t *testing.T) {
 func TestC01(t *testing.T) {
 	rec := stat.For("C01")
 	rec.SetRule(c01Rule)
-	rec.Require("nontrivial", "compressor/reused", "block/max-offset>=65000", "block/multi-byte-match-length", "block/multi-byte-literal-length", "src/0..16", "comp/hc-depth0", "comp/hc-depth>=65536")
+	rec.Require("nontrivial", "history/short-destination-call", "compressor/reused", "block/max-offset>=65000", "block/multi-byte-match-length", "block/multi-byte-literal-length", "src/0..16", "comp/hc-depth0", "comp/hc-depth>=65536")
 	checkProp(t, "C01", "C01/roundtrip", pick(1500, 60000), drawC01, runC01)
 }
